@@ -1154,6 +1154,25 @@ func ext۰syncMap۰Load(fr *frame, a []value) value {
 	return tuple{v, true}
 }
 
+func ext۰syncMap۰LoadOrStore(fr *frame, a []value) value {
+	m := fr.i.st.syncMap(a[0].(*value))
+	if v, ok := m.lookup(fr, a[1]); ok {
+		return tuple{v, true}
+	}
+	m.insert(fr, a[1], a[2])
+	return tuple{a[2], false}
+}
+
+func ext۰syncMap۰LoadAndDelete(fr *frame, a []value) value {
+	m := fr.i.st.syncMap(a[0].(*value))
+	v, ok := m.lookup(fr, a[1])
+	if !ok {
+		return tuple{iface{}, false}
+	}
+	m.delete(fr, a[1])
+	return tuple{v, true}
+}
+
 func ext۰syncMap۰Delete(fr *frame, a []value) value {
 	fr.i.st.syncMap(a[0].(*value)).delete(fr, a[1])
 	return nil
@@ -1239,6 +1258,8 @@ func init() {
 	externals["(*sync.Pool).Put"] = ext۰syncPool۰Put
 	externals["(*sync.Map).Store"] = ext۰syncMap۰Store
 	externals["(*sync.Map).Load"] = ext۰syncMap۰Load
+	externals["(*sync.Map).LoadOrStore"] = ext۰syncMap۰LoadOrStore
+	externals["(*sync.Map).LoadAndDelete"] = ext۰syncMap۰LoadAndDelete
 	externals["(*sync.Map).Delete"] = ext۰syncMap۰Delete
 	externals["(*sync.Map).Range"] = ext۰syncMap۰Range
 	externals["(time.Time).UnixNano"] = ext۰time۰Time۰UnixNano
